@@ -60,8 +60,13 @@ def build_replay():
         f.write('[package]\nname = "rsbdd_replay"\nversion = "0.0.0"\nedition = "2021"\n\n[dependencies]\n'
                 f'rsbdd = {{ path = "{REPO}" }}\n\n[profile.dev]\nopt-level = 1\ndebug = false\n\n[workspace]\n')
     lock = os.path.join(REPO, "Cargo.lock")
-    if os.path.exists(lock) and not os.path.exists(os.path.join(d, "Cargo.lock")):
-        shutil.copy(lock, os.path.join(d, "Cargo.lock"))
+    mylock = os.path.join(d, "Cargo.lock")
+    if os.path.exists(lock):
+        # always start from the repository's own lock file: a lock file cargo generated itself after a failed build
+        # (offline, from whatever happens to be cached) must never survive into the next run
+        shutil.copy(lock, mylock)
+    elif os.path.exists(mylock):
+        os.remove(mylock)
     env = dict(os.environ, CARGO_NET_OFFLINE="true", CARGO_TARGET_DIR=os.path.join(WORK, "replay-target"))
     p = subprocess.run(["cargo", "build", "--offline", "--quiet"], cwd=d, env=env, capture_output=True, text=True, timeout=1800)
     if p.returncode != 0:
@@ -70,9 +75,14 @@ def build_replay():
             os.remove(os.path.join(d, "Cargo.lock"))
         except OSError:
             pass
+        first_err = p.stderr
         p = subprocess.run(["cargo", "build", "--offline", "--quiet"], cwd=d, env=env, capture_output=True, text=True, timeout=1800)
         if p.returncode != 0:
-            return None, p.stderr[-1500:]
+            try:
+                os.remove(os.path.join(d, "Cargo.lock"))
+            except OSError:
+                pass
+            return None, (first_err or p.stderr)[-1500:]
     return os.path.join(WORK, "replay-target", "debug", "rsbdd_replay"), ""
 
 
